@@ -118,7 +118,7 @@ def AllOkC.dec (env : Env) : (s : St) → (ops : List Op) → Decidable (AllOkC 
       (sameBound op op' = true ∧ OpOk s op' ∧ AllOkC env (apply env (apply env s op).1 op').1 ops)))
 instance (env : Env) (s : St) (ops : List Op) : Decidable (AllOkC env s ops) := AllOkC.dec env s ops
 
-/-- Hypothesis on `other = this.copy()` (open finding D09f): the copy gets the class-default
+/-- Hypothesis on `other = this.copy()` (observation formerly listed as D09f): the copy gets the class-default
     piece size bounds, so the copied piece length must lie within them; and — for the invariant
     `Inv`, whose stamp clause ties hashes to the object's own content path — the source carries
     no hashes (a copy of a hashed torrent is a *detached* object: hashes without a content path,
